@@ -12,7 +12,7 @@ REQUIRED_THEOREMS = ['Usid.C10.flatten_of_reshape', 'Usid.C10.reshape_of_flatten
 RULE = ('generator datasets (1-3 dimensions per side, sizes 1-4, every storage permutation; a share with a single '
         'position or a single spectroscopic point); the file-order N-D form is flattened with the dataset\'s own index '
         'matrices passed as h5py / numpy / dask, with size-1 axes kept or squeezed, with only one matrix, and with '
-        'shape-incompatible requests; non-trivial = N > 1 and M > 1 with a non-identity rate order on some side')
+        'shape-incompatible requests (wrong element count, wrong rank, one-sided with the matrix of another grid); non-trivial = N > 1 and M > 1 with a non-identity rate order on some side')
 
 
 def generate(seed, tier):
@@ -29,8 +29,23 @@ def generate(seed, tier):
                     all(len(s['sizes']) <= gen.n_points(s) for s in (ds['pos'], ds['spec'])):
                 break
         cases.append({'ds': ds, 'anc': rng.choice(['h5py', 'numpy', 'dask']), 'squeeze': rng.random() < 0.3,
-                      'bad': rng.choice([None, None, None, 'count', 'rank'])})
+                      'bad': rng.choice([None, None, None, 'count', 'rank']), 'pick': rng.randint(0, 7)})
     return cases
+
+
+def _foreign(shape, total, rng_pick):
+    """index matrix (points x 2) of ANOTHER grid with `total` points, one of whose two sizes occurs in `shape` and
+    one does not: a shape-incompatible one-sided request"""
+    cands = []
+    for a in range(2, total):
+        if total % a == 0 and total // a >= 2:
+            b = total // a
+            if (a in shape) != (b in shape):
+                cands.append((a, b))
+    if not cands:
+        return None
+    a, b = cands[rng_pick % len(cands)]
+    return gen.index_matrix([a, b], [1, 0] if rng_pick % 2 else [0, 1])
 
 
 def _tok(a):
@@ -73,6 +88,16 @@ def run_impl(inp, work):
         out['pos_only'] = flat(arr, h5_pos=conv(hp))
         out['spec_only'] = flat(arr, h5_spec=conv(hs))
         out['main'] = _tok(main)
+        # one-sided requests with the index matrix of a DIFFERENT grid (same number of points)
+        if inp['bad'] is None and not inp['squeeze']:
+            fs = _foreign(list(nd.shape), hs.shape[1], inp.get('pick', 0))
+            fp = _foreign(list(nd.shape), hp.shape[0], inp.get('pick', 0))
+            if fs is not None:
+                out['foreign_spec_matrix'] = fs.T.tolist()
+                out['foreign_spec'] = flat(arr, h5_spec=np.ascontiguousarray(fs.T))
+            if fp is not None:
+                out['foreign_pos_matrix'] = fp.tolist()
+                out['foreign_pos'] = flat(arr, h5_pos=np.ascontiguousarray(fp))
         # second half of the round trip: reshaping the flattened matrix again
         if 'err' not in out['both'] and inp['bad'] is None and list(arr.shape) == list(nd.shape):
             two_d = np.array(out['both']['flat'], dtype=np.float64).reshape(out['both']['shape'])
@@ -133,6 +158,10 @@ def oracle(inp, obs):
             if not ok:
                 fails.append('one-sided-%s: flattening with only the %s matrix returned a matrix whose missing side is not '
                              'in slowest-to-fastest order' % (key, 'position' if axis_is_pos else 'spectroscopic'))
+        for key in ('foreign_spec', 'foreign_pos'):
+            if key in obs and 'err' not in obs[key]:
+                fails.append('incompatible-%s: a one-sided request with the index matrix of another grid (a dimension size '
+                             'that does not occur in the array) returned a matrix instead of raising' % key)
     else:
         # (with a single matrix the other side is inferred from the array, so only the two-matrix request can
         # detect an element-count mismatch)
@@ -156,14 +185,20 @@ def model_requests_obs(inp, obs):
     pos = gen.index_matrix(ds['pos']['sizes'], ds['pos']['rate']).tolist()
     spec = gen.index_matrix(ds['spec']['sizes'], ds['spec']['rate']).T.tolist()
     base = {'op': 'rs.from_nd', 'shape': obs['arr_shape'], 'flat': obs['arr_flat']}
-    return [dict(base, pos=pos, spec=spec), dict(base, pos=pos, spec=None), dict(base, pos=None, spec=spec)]
+    reqs = [dict(base, pos=pos, spec=spec), dict(base, pos=pos, spec=None), dict(base, pos=None, spec=spec)]
+    if 'foreign_spec' in obs:
+        reqs.append(dict(base, pos=None, spec=obs['foreign_spec_matrix']))
+    if 'foreign_pos' in obs:
+        reqs.append(dict(base, pos=obs['foreign_pos_matrix'], spec=None))
+    return reqs
 
 
 def model_compare(inp, obs, resp):
     if 'nd_err' in obs:
         return []
     notes = []
-    for key, r in zip(('both', 'pos_only', 'spec_only'), resp):
+    keys = ['both', 'pos_only', 'spec_only'] + [k for k in ('foreign_spec', 'foreign_pos') if k in obs]
+    for key, r in zip(keys, resp):
         o = obs[key]
         if ('err' in o) != ('err' in r):
             notes.append('%s: impl %s model %s' % (key, 'error ' + o.get('cls', '') if 'err' in o else 'ok', r))
